@@ -68,7 +68,7 @@ NAMES = ("stock", "inflow", "outflow")
 def ops_for(kind, dist):
     ops = [dict(op="drv", v=k) for k in range(5)]
     if kind != "simple":
-        ops += [dict(op="prm", v=k) for k in range(4)] + [dict(op="prm", v="A"), dict(op="prm", v="F"), dict(op="scribble-param")]
+        ops += [dict(op="prm", v=k) for k in range(4)] + [dict(op="prm", v="A"), dict(op="prm", v="F"), dict(op="prm", v="I"), dict(op="prm", v="N"), dict(op="scribble-param")]
         ops += [dict(op="read", what="sf"), dict(op="read", what="pdf")]
         # the stock is handed ANOTHER lifetime model object (parameters given to the constructor / set afterwards)
         ops += [dict(op="swap-lm", v=1, how="ctor"), dict(op="swap-lm", v=2, how="set"), dict(op="swap-lm", v=0, how="set")]
@@ -82,7 +82,15 @@ class St:
     pass
 
 
+PRM_INT = {"NormalLifetime": dict(mean=3, std=1), "FoldedNormalLifetime": dict(mean=3, std=1), "LogNormalLifetime": dict(mean=3, std=1), "WeibullLifetime": dict(weibull_shape=2, weibull_scale=3), "FixedLifetime": dict(mean=2)}
+PRM_BAD = {"NormalLifetime": dict(mean=-3.0, std=1.0), "FoldedNormalLifetime": dict(mean=-3.0, std=1.0), "LogNormalLifetime": dict(mean=-3.0, std=1.0), "WeibullLifetime": dict(weibull_shape=-2.0, weibull_scale=3.0), "FixedLifetime": dict(mean=-2.5)}
+
+
 def prm_kwargs(dist, v, dims):
+    if v == "I":  # whole numbers given as Python ints
+        return dict(PRM_INT[dist])
+    if v == "N":  # an inadmissible value (a sensitivity loop may try it and catch the error)
+        return dict(PRM_BAD[dist])
     if v in ("A", "F"):
         # A: per-label (or per-cohort) FlodymArray for the first parameter, scalar for the second
         # F: FlodymArrays over the model's full dims in the model's own order for every parameter
@@ -207,10 +215,23 @@ def apply_op(st, op, check):
     if op["op"] == "prm":
         kw = prm_kwargs(st.dist, op["v"], s.dims)
         stt, info = attempt(lambda: s.lifetime_model.set_prms(**kw))
-        if stt == "raised":
-            return fail("raised", f"set_prms raised {info}")
         st.prm = op["v"]
         st.handed = [v for v in kw.values() if hasattr(v, "values")]
+        if stt == "raised":
+            if op["v"] == "N":
+                return "prms-refused", None  # whatever the model holds now, the next compute is judged by it
+            return fail("raised", f"set_prms raised {info}")
+        if check:
+            # the model holds what a FRESH model given the same parameters holds
+            import flodym
+
+            fresh_lm = getattr(flodym, st.dist)(dims=s.dims, n_pts_per_interval=NPTS)
+            stf, _ = attempt(lambda: fresh_lm.set_prms(**prm_kwargs(st.dist, op["v"], s.dims)))
+            if stf == "ok":
+                for nm, v in fresh_lm.prms.items():
+                    h = s.lifetime_model.prms.get(nm)
+                    if h is None or np.asarray(h).shape != np.asarray(v).shape or not np.array_equal(np.asarray(h, dtype=float), np.asarray(v, dtype=float)):
+                        return fail("held-differs", f"after set_prms (version {op['v']}) the model holds {nm} = {np.asarray(h).ravel()[:4]} (dtype {getattr(h, 'dtype', None)}), a fresh model given the same parameters holds {np.asarray(v).ravel()[:4]}")
         return "prms-set", None
     if op["op"] == "swap-lm":
         import flodym
@@ -240,6 +261,8 @@ def apply_op(st, op, check):
         stt, info = attempt(lambda: getattr(s.lifetime_model, op["what"]))
         if st.prm is None:
             return ("read-refused" if stt == "raised" else "read-without-prms"), None
+        if st.prm == "N" and stt == "raised":
+            return "read-refused", None  # inadmissible parameters: refusing the table is right
         if stt == "raised":
             return fail("raised", f"reading {op['what']} raised {info}")
         return "table-read", None
@@ -251,11 +274,14 @@ def apply_op(st, op, check):
     # a freshly built stock with the same inputs: the current driver and the lifetime parameters the
     # model HOLDS at this moment (read through the public `prms`)
     fresh = make_obj(st.kind, st.dist, st.grid, st.drv, None, st.drv2)
+    refused_early = None
     if st.kind != "simple":
         held = s.lifetime_model.prms
         if all(v is not None for v in held.values()):
-            fresh.lifetime_model.set_prms(**{nm: np.array(v, dtype=float, copy=True) for nm, v in held.items()})
-    stf, infof = attempt(lambda: fresh.compute())
+            stp, infop = attempt(lambda: fresh.lifetime_model.set_prms(**{nm: np.array(v, dtype=float, copy=True) for nm, v in held.items()}))
+            if stp == "raised":
+                refused_early = infop  # a fresh object refuses these parameters outright
+    stf, infof = attempt(lambda: fresh.compute()) if refused_early is None else ("raised", refused_early)
     if stf == "raised":
         if stt != "raised":
             return fail("must-raise", f"compute succeeded although a fresh stock with the same inputs refuses ({infof})")
